@@ -270,7 +270,79 @@ Proof.
 Qed.
 Print Assumptions C12_relpath_append_refuted.
 
+(* stripext / addext: for EVERY well-formed path stripext succeeds, gives a well-formed path under the same root,
+   and adding the extension back returns the path exactly (all fields, Leibniz equality); stripext with a
+   replacement is stripext followed by addext; the extension never contains a separator *)
+Theorem C12_stripext_addext : forall p, wfp p ->
+  exists st, stripext p None = Some st /\ wfp st /\ p_root st = p_root p /\
+             addext st (ext p) = Some p /\ (forall r, stripext p (Some r) = addext st r) /\
+             ~ In c_slash (ext p).
+Proof. exact stripext_addext. Qed.
+Print Assumptions C12_stripext_addext.
+
+(* realize = ordinary joining: a well-formed path under a non-absolute root whose variable has the non-empty
+   value base, not ending in a separator, is realised (POSIX flavour, with the variable separator) as
+   posixpath.join(base, suffix) - base alone for the root directory itself - preceded by the DESTDIR value when
+   the path is destdir-flagged and the variable is defined *)
+Theorem C12_realize_join : forall vars dv ex loc p base,
+  wfp p -> root_eqb (p_root p) Absolute = false -> vars (p_root p) = Some base ->
+  is_nil base = false -> ends_with_slash base = false ->
+  realize Posix vars dv ex true loc p =
+  destdir_prefix dv p ++ (if is_nil (suffix_str p) then base else posix_join base (suffix_str p)).
+Proof. exact realize_join. Qed.
+Print Assumptions C12_realize_join.
+
+(* string() against a string-valued base directory, either flavour: the localised join *)
+Theorem C12_string_join : forall fl vars p base,
+  wfp p -> root_eqb (p_root p) Absolute = false -> vars (p_root p) = VStr base ->
+  is_nil base = false -> ends_with_slash base = false ->
+  path_string fl vars p =
+  Some (localize fl (if is_nil (suffix_str p) then base else posix_join base (suffix_str p))).
+Proof. exact string_join. Qed.
+Print Assumptions C12_string_join.
+
+(* for every path and flavour the localised realisation is the localisation of the plain one *)
+Theorem C12_realize_localize : forall fl vars dv ex vsep p,
+  realize fl vars dv ex vsep true p = localize fl (realize fl vars dv ex vsep false p).
+Proof. exact realize_localize. Qed.
+Print Assumptions C12_realize_localize.
+
+(* absolute paths realise to their suffix (after the DESTDIR value when it applies), never with a ./ prefix *)
+Theorem C12_realize_abs : forall vars dv ex vsep loc p,
+  wfp p -> root_eqb (p_root p) Absolute = true ->
+  realize Posix vars dv ex vsep loc p = destdir_prefix dv p ++ suffix_str p.
+Proof. exact realize_abs. Qed.
+Print Assumptions C12_realize_abs.
+
+(* the executable form: with no value for the root, ./ is put in front exactly when the suffix has no separator *)
+Theorem C12_realize_executable : forall vars dv loc p,
+  wfp p -> root_eqb (p_root p) Absolute = false -> vars (p_root p) = None ->
+  (p_destdir p = true -> dv = None) ->
+  realize Posix vars dv true true loc p =
+  if has_slash (suffix_str p) then suffix_str p
+  else if is_nil (suffix_str p) then dot else posix_join dot (suffix_str p).
+Proof. exact realize_executable. Qed.
+Print Assumptions C12_realize_executable.
+
+(* the guard on the base value is needed: against the file-system root the realisation has two leading slashes *)
+Theorem C12_realize_join_refuted : exists p,
+  mk (STR "a") (RRoot Srcdir) None None = Some p /\
+  realize Posix (fun _ => Some (STR "/")) None false true false p = STR "//a" /\
+  posix_join (STR "/") (suffix_str p) = STR "/a".
+Proof. eexists. vm_compute. repeat split. Qed.
+Print Assumptions C12_realize_join_refuted.
+
 (* non-vacuity *)
+Example ex_realize : exists p q,
+  mk (STR "sub/prog") (RRoot Builddir) None None = Some p /\ mk (STR "lib") (RRoot Libdir) (Some true) None = Some q /\
+  realize Posix (fun _ => Some (STR "$(builddir)")) None false true true p = STR "$(builddir)/sub/prog" /\
+  realize Posix (fun _ => Some (STR "/usr/lib")) (Some (STR "$(DESTDIR)")) false true true q = STR "$(DESTDIR)/usr/lib/lib" /\
+  stripext p (Some (STR ".o")) = addext p (STR ".o").
+Proof. do 2 eexists. vm_compute. repeat split. Qed.
+Example ex_stripext : exists p st,
+  mk (STR "src/foo.tar.gz") (RRoot Srcdir) None None = Some p /\ stripext p None = Some st /\
+  suffix_str st = STR "src/foo.tar" /\ ext p = STR ".gz" /\ addext st (ext p) = Some p.
+Proof. do 2 eexists. vm_compute. repeat split. Qed.
 Example ex_relpath : exists p q,
   mk (STR "a/b/c.o") (RRoot Builddir) None None = Some p /\ mk (STR "a/lib/x/") (RRoot Builddir) None None = Some q /\
   relpath Posix p q [] false = Some (STR "../../b/c.o") /\ append q (STR "../../b/c.o") = Some p /\
